@@ -25,6 +25,61 @@ type Names struct {
 	// Words (Opts.WordNames): class and method names may carry ordinary English words that the
 	// heuristics of the tool react to in other places (Contest, Latest, ...Service, getX, testX)
 	Words bool
+	// Exotic (Opts.ExoticNames): method, variable and class names may contain the other characters a
+	// Java identifier may be written with: `_`, `$` (not in class names) and letters outside ASCII
+	Exotic bool
+	// Long (Opts.LongLines): method and variable names may be far longer than 40 characters
+	Long bool
+}
+
+// exoticPieces are put behind, inside or in front of a name (Names.Exotic). The first ones are the plainest.
+var exoticPieces = []string{"_", "$", "__", "_tmp", "$impl", "$0", "é", "ü", "ß", "größe", "π", "данные", "値", "名前"}
+
+// exoticClassPieces are the pieces used in class names: no `$` (javac's own separator for nested classes).
+var exoticClassPieces = []string{"_", "__", "_v", "É", "é", "ß", "Größe", "Π", "Данные", "値"}
+
+// decorate (Names.Exotic) puts one exotic piece behind the name, behind its first character (always an
+// ASCII letter) or, when front is allowed, in front of it.
+func (ns *Names) decorate(t *rapid.T, name, label string, pieces []string, front bool) string {
+	if !ns.Exotic || rapid.IntRange(0, 3).Draw(t, label+"Exotic") != 3 {
+		return name
+	}
+	piece := rapid.SampledFrom(pieces).Draw(t, label+"ExoticPiece")
+	at := 1
+	if front {
+		at = 2
+	}
+	w := name + piece
+	switch rapid.IntRange(0, at).Draw(t, label+"ExoticAt") {
+	case 1:
+		w = name[:1] + piece + name[1:]
+	case 2:
+		w = piece + name
+	}
+	if ns.used[w] || javaKeywords[w] {
+		return name
+	}
+	ns.used[w] = true
+	return w
+}
+
+var chunkGen = rapid.StringMatching(`[a-zA-Z0-9]{1,6}`)
+
+// longTail (Names.Long) is a tail of 41..300 characters, rarely of 4100..5200 (longer than the 4096-byte
+// buffers of line readers): a short random chunk repeated, so that it costs few draws and shrinks well.
+func (ns *Names) longTail(t *rapid.T, label string) string {
+	// (rapid favours the ends of a range: `== 19` happens for about one draw in twenty)
+	if rapid.IntRange(0, 19).Draw(t, label+"VeryLong") != 19 {
+		return ""
+	}
+	n := 0
+	if rapid.IntRange(0, 19).Draw(t, label+"Huge") == 19 {
+		n = rapid.IntRange(4100, 5200).Draw(t, label+"HugeLen")
+	} else {
+		n = rapid.IntRange(41, 300).Draw(t, label+"LongLen")
+	}
+	chunk := chunkGen.Draw(t, label+"Chunk")
+	return strings.Repeat(chunk, n/len(chunk)+1)[:n]
 }
 
 // classWords are appended to a class name (after its running number, so that the file name ends in
@@ -45,7 +100,11 @@ var longTailGen = rapid.StringMatching(`[a-zA-Z0-9]{20,36}`)
 func (ns *Names) fresh(t *rapid.T, first string, label string) string {
 	ns.n++
 	tail := ""
+	if ns.Long && label != "class" {
+		tail = ns.longTail(t, label)
+	}
 	switch k := rapid.IntRange(0, 11).Draw(t, label+"Shape"); {
+	case tail != "":
 	case k >= 10:
 		tail = longTailGen.Draw(t, label+"LongTail")
 	case k >= 5:
@@ -82,6 +141,18 @@ func sanitize(name string) string {
 	return name
 }
 
+// numbered hands out prefix + running number without any draw (bulk parameter lists).
+func (ns *Names) numbered(prefix string) string {
+	for {
+		ns.n++
+		name := fmt.Sprintf("%s%d", prefix, ns.n)
+		if !ns.used[name] {
+			ns.used[name] = true
+			return name
+		}
+	}
+}
+
 // Reserve marks a name as taken.
 func (ns *Names) Reserve(name string) { ns.used[name] = true }
 
@@ -93,10 +164,10 @@ func (ns *Names) Class(t *rapid.T) string {
 		w := n + rapid.SampledFrom(classWords).Draw(t, "classWordText")
 		if !ns.used[w] {
 			ns.used[w] = true
-			return w
+			return ns.decorate(t, w, "class", exoticClassPieces, false)
 		}
 	}
-	return n
+	return ns.decorate(t, n, "class", exoticClassPieces, false)
 }
 
 func (ns *Names) Method(t *rapid.T) string {
@@ -106,13 +177,13 @@ func (ns *Names) Method(t *rapid.T) string {
 		w := rapid.SampledFrom(methodWords).Draw(t, "methodWordText") + strings.ToUpper(n[:1]) + n[1:]
 		if !ns.used[w] && !javaKeywords[w] {
 			ns.used[w] = true
-			return w
+			return ns.decorate(t, w, "method", exoticPieces, true)
 		}
 	}
-	return n
+	return ns.decorate(t, n, "method", exoticPieces, true)
 }
 
 func (ns *Names) Var(t *rapid.T) string {
 	first := rapid.SampledFrom([]string{"v", "a", "repo", "it", "p", "tmp"}).Draw(t, "varFirst")
-	return ns.fresh(t, first, "var")
+	return ns.decorate(t, ns.fresh(t, first, "var"), "var", exoticPieces, true)
 }
